@@ -33,8 +33,8 @@ claim('C03', 'proof',
       TRUST + ' numpy.poly1d is modelled as a formal polynomial.', 'DESIGN.md section 3 C03')
 
 claim('C16', 'other',
-      'typestate/effect analysis on per-method CFGs (must-pass-through invalidation, keyed-cache guards with direction, '
-      'eq/hash field sets, package-wide who-may-write scan)',
+      'typestate/effect analysis on per-method CFGs (must-pass-through invalidation, eq/hash field sets, package-wide who-may-write scan); '
+      'abstract interpretation of length() on a segment holding a stale symbolic cache entry (keyed hits, tolerance directions, fills)',
       'Decides for ALL mutation/query histories (all code paths, not sampled sequences) the structural discipline that '
       'makes the property hold: every statement of Path that can mutate the segment store reaches every normal exit only '
       'through `self._length = None` and a refresh of _start/_end (helper methods summarised by must-assign sets); reads of the '
@@ -170,14 +170,19 @@ claim('C11', 'other',
       'satisfies the intersection equations identically and both parameters are range-tested; in the Arc-Bezier branch u1transform maps '
       'the arc to the unit circle and is affine, the polynomial handed to the root finder is |u1transform(B(t))|^2 - 1, each returned t1 is '
       'the phase2t image of its own t2 and both are range-tested; Path.intersect attaches each parameter to its own path/segment and maps '
-      'through t2T. Not decided: accuracy of subdivision and of the arc solvers (1e-5 / 1e-3).', TRUST, 'DESIGN.md section 3 C11')
+      'through t2T; in the subdivision solver bezier_intersections (two levels of the work-list interpreted with symbolic boxes) every examined '
+      'sub-curve is the dyadic piece of its own input curve, each pair carries the mid parameters of its pieces, and a crossing is reported '
+      'only on paths that know BOTH boxes to be below tol_deC. Not decided: floating-point accuracy of subdivision and of the arc solvers '
+      '(1e-5 / 1e-3).', TRUST, 'DESIGN.md section 3 C11')
 
 claim('C12', 'other',
-      'abstract interpretation of Arc.phase2t with a hooked nested helper and mod/floordiv atoms, AST/CFG provenance (index domains), '
-      'closed-interval filter rules, shared cubic-extrema completeness obligation',
+      'abstract interpretation of Arc.phase2t as a whole (mod/floordiv atoms, sign-label paths), of the line solver and of Path.intersect\'s '
+      'joint de-duplication (per label path: what is kept / dropped and what the path knows), AST/CFG provenance (index domains), shared '
+      'cubic-extrema completeness obligation',
       'Thin by nature: only necessary conditions, each of which has produced a real finding or catches a seeded break. Decides: phase2t '
-      'hands _deg the lower end of the angular interval for both signs of delta (F09), _deg shifts by floor(limit/360)*360, '
-      't == (degs-theta)/delta; index domains of the de-duplication steps in polyroots (F10) and Path.intersect; closed filters '
+      'shifts the phase into [limit, limit+360) with limit = the lower end of the angular interval for both signs of delta (F09), by '
+      'floor(limit/360)*360 (+360 exactly when below the limit), t == (degs-theta)/delta; Path.intersect drops a crossing only when an earlier '
+      'one is known to lie within the absolute tol; index domains of the de-duplication steps in polyroots (F10) and Path.intersect; closed filters '
       '[0,1] / [0,line_length] and single visit per root in the line solver; completeness of the cubic extrema used to prune the '
       'subdivision. NOT decided: completeness of recursive subdivision / numeric root finding - the heart of C12.',
       TRUST, 'DESIGN.md section 3 C12')
